@@ -135,3 +135,5 @@ LEVEL = {
     'technique': 'Coq proof (write-back item cache refines a map; flush persists every instance; warm = cold under serial transactions; backend '
                  'independence from the bucket laws) + the same histories replayed under five cache/backend configurations against the reference',
 }
+
+CFG['rule'] = CFG['rule'] + ' ' + 'Additions: flat indexes with a learned binary quantiser and, in every sixth history, a product quantiser trained inside the history; chain-shaped graphs in every second graph history; the warm answer and the answer of a fresh shard object on THE SAME FILE (cold) are compared first (codes 113 / 114), then each is judged against the reference.'
